@@ -271,6 +271,49 @@ def callFail {Sig : Type} (sigOf : SB → Sig) (c : Cfg Sig) (q : Req) : Cfg Sig
   | .checked .. => ((step sigOf (ticksHold sigOf 2 r.1) .crash).1, .panic)
   | _ => ticks sigOf 8 r.1 r.2
 
+/-! ### restart: which loader, which files
+
+`privval/file.go` has four constructors. `node/node.go DefaultNewNode` (every node start) uses
+`LoadOrGenFilePV`; `cmd/tendermint/commands` use `LoadFilePV` (init, show_validator, testnet),
+`GenFilePV` (init, gen_validator, reset when no key) and `LoadFilePVEmptyState` (ONLY the unsafe
+reset commands). `loadFilePV` exits the process (`tmos.Exit`) when a file it must read is missing. -/
+
+inductive Loader | loadOrGen | load | emptyState | gen
+deriving DecidableEq, Repr
+
+inductive LoadOutcome
+  | resume      -- memory := the state file (`Ev.crash`)
+  | empty       -- memory := empty sign state, state file untouched (until the next signature)
+  | generate    -- new key, empty sign state (saved by LoadOrGenFilePV)
+  | exit        -- the process exits: a file that must be read is missing
+deriving DecidableEq, Repr
+
+/-- `LoadFilePV` = `loadFilePV(key, state, true)` -/
+def loadDecision (keyExists stateExists : Bool) : LoadOutcome :=
+  if keyExists && stateExists then .resume else .exit
+
+/-- the decision table of the four constructors on (key file exists, state file exists) -/
+def loaderDecision : Loader → Bool → Bool → LoadOutcome
+  | .load, k, st => loadDecision k st
+  | .emptyState, true, _ => .empty          -- loadFilePV(key, state, false): the state file is not read
+  | .emptyState, false, _ => .exit
+  | .gen, _, _ => .generate
+  | .loadOrGen, true, st => loadDecision true st    -- `if tmos.FileExists(keyFilePath) { LoadFilePV … }`
+  | .loadOrGen, false, _ => .generate               -- `else { GenFilePV …; pv.Save() }`
+
+/-- a restart through a loader; `none` = the process does not come up. A generated key is a new
+validator: its journal starts empty. -/
+def restartWith {Sig : Type} (sigOf : SB → Sig) (ld : Loader) (keyExists stateExists : Bool) (c : Cfg Sig) :
+    Option (Cfg Sig) :=
+  match loaderDecision ld keyExists stateExists with
+  | .resume => some (step sigOf c .crash).1
+  | .empty => some { c with mem := genesis, pc := .idle }
+  | .generate => some (init genesis)
+  | .exit => none
+
+/-- the loader every node start uses (fact `pv_node_loader`) -/
+def nodeLoader : Loader := .loadOrGen
+
 /-! ### order on (height, round, step) -/
 def hrsLt (a b : Int × Int × Int) : Prop :=
   a.1 < b.1 ∨ (a.1 = b.1 ∧ (a.2.1 < b.2.1 ∨ (a.2.1 = b.2.1 ∧ a.2.2 < b.2.2)))
